@@ -104,7 +104,7 @@ Proof. exact explain_same_limits. Qed.
 Print Assumptions C06_explain_same_limits.
 
 (* ---- non-vacuity and concrete values ---- *)
-Definition c0 : cols := mk_cols false false false false false false [] []
+Definition c0 : cols := mk_cols false false false false false false []
   (mk_gcols false false None None None None None None) [] [].
 Definition ex_tree : tree :=
   Dir [116%N] c0 [File [97%N] c0; File [98%N] c0; Dir [115%N] c0 [File [99%N] c0]; Other [108%N] c0].
